@@ -148,7 +148,7 @@ def runtime_part(run, tier):
                 bad = ("backward.leaf_gradient", "after one sweep per head the leaf holds %s, the sum of the heads' derivatives is %s" % (cfg["grad"], cfg["expected"]))
             if bad:
                 run.violation(bad[0], bad[1], key=dict(key, clause="multi_root"), replay={"cmd": j["cmd"], "spec": spec, "result": cfg})
-    for mode in ("plain", "no_grad", "no_grad_reused", "plain_varying", "no_grad_varying"):
+    for mode in ("plain", "no_grad", "no_grad_reused", "plain_varying", "no_grad_varying", "plain_named", "no_grad_named"):
         spec = {"kind": "untracked", "mode": mode, "loops": LOOPS}
         j = deep.run_job(spec, timeout=300)
         if j["status"] != "ok":
@@ -163,6 +163,13 @@ def runtime_part(run, tier):
                               replay={"cmd": j["cmd"], "spec": spec, "result": j["result"]})
             elif u["result_requires_grad"] or u["result_has_grad_fn"] or not u["value_ok"]:
                 run.error("untracked %s loop %d: harness precondition failed %s" % (mode, u["loop"], u))
+        for u in runs:
+            if "footprint_at_end" in u and u["footprint_at_end"] > u["footprint_after_20_steps"] + 256:
+                run.violation("untracked.bounded_memory", "%d updates of a running value from NAMED operands (%s): everything reachable from the result tensor takes %d bytes after 20 steps and %d "
+                              "bytes at the end - the result keeps something of every step" % (u["loop"], "inside no_grad()" if mode.startswith("no_grad") else "operands do not require grad",
+                                                                                               u["footprint_after_20_steps"], u["footprint_at_end"]),
+                              key={"mode": mode, "clause": "footprint_grows", "loop": u["loop"]}, replay={"cmd": j["cmd"], "spec": spec, "result": j["result"]})
+                break
         small, big = runs[0], runs[-1]
         alive = [u for u in runs if u["operands_alive"] > LAST_FEW]
         grows = big["live_tensors_added"] > LIVE_MAX or big["live_tensors_added"] - small["live_tensors_added"] > LAST_FEW
